@@ -440,8 +440,8 @@ theorem solveG_homogeneous_competing (mag : V3 K → K) (cosMax big : K) (ps qs 
       · obtain ⟨t, ht, _, htb, hlt⟩ := hextra e.1 heq hg a hb
         exact absurd (hw t ht htb) (not_le.mpr hlt)
 
-/-- ... hence strain, rotation and the invariants are those of `F⁻ᵀ` at every such atom. -/
-theorem measures_homogeneous (G F : M3 K) (h : G = M3.inv F.transpose) :
+/-- congruence only (kept for reference; carries no content of its own). -/
+theorem measures_congr (G F : M3 K) (h : G = M3.inv F.transpose) :
     strain G = strain (M3.inv F.transpose) ∧ rotation G = rotation (M3.inv F.transpose) ∧
     invariant1 (strain G) = invariant1 (strain (M3.inv F.transpose)) ∧
     invariant2 (strain G) = invariant2 (strain (M3.inv F.transpose)) ∧
@@ -462,6 +462,36 @@ theorem rotation_antisymm (G : M3 K) : (rotation G).transpose = subM zeroM (rota
 /-- ... of `I - G`. -/
 theorem strain_add_rotation (G : M3 K) : addM (strain G) (rotation G) = subM M3.one G := by
   ext <;> simp [strain, rotation, addM, subM, M3.row, V3.get, M3.one, half] <;> ring
+
+/-- ... hence strain, rotation and the invariants the code derives from the tensor IT COMPUTES at such an atom
+    (`strainG`: neighbour vectors, pairing, least squares) are those of `F⁻ᵀ`, and they split `1 - F⁻ᵀ` into its
+    symmetric and antisymmetric part.  (Statement audit: the earlier form took `G = F⁻ᵀ` as a hypothesis and was a
+    congruence, true of any six functions; it is `measures_congr` above.) -/
+theorem measures_homogeneous (mag : V3 K → K) (cosMax big : K) (c0 c1 : Cell K) (pos0 pos1 : Nat → V3 K)
+    (nbrs0 nbrs1 : List Nat) (i : Nat) (ks : List Nat) (F : M3 K) (hF : M3.det F ≠ 0)
+    (hlen : nbrs1.length = ks.length)
+    (hbest : ∀ e ∈ (nbrVectors c1 pos1 nbrs1 i).zip ks, IsBest mag cosMax (nbrVectors c0 pos0 nbrs0 i) e.1 e.2)
+    (hnd : ks.Nodup)
+    (hq : ∀ e ∈ (nbrVectors c1 pos1 nbrs1 i).zip ks, ∀ p, (nbrVectors c0 pos0 nbrs0 i)[e.2]? = some p →
+      e.1 = M3.mulVec F p)
+    (hne : nbrs1 ≠ [])
+    (hrank : M3.det (qtqV (nbrVectors c1 pos1 nbrs1 i)) ≠ 0) :
+    strain (strainG mag cosMax big c0 c1 pos0 pos1 nbrs0 nbrs1 i) = strain (M3.inv F.transpose) ∧
+    rotation (strainG mag cosMax big c0 c1 pos0 pos1 nbrs0 nbrs1 i) = rotation (M3.inv F.transpose) ∧
+    invariant1 (strain (strainG mag cosMax big c0 c1 pos0 pos1 nbrs0 nbrs1 i))
+      = invariant1 (strain (M3.inv F.transpose)) ∧
+    invariant2 (strain (strainG mag cosMax big c0 c1 pos0 pos1 nbrs0 nbrs1 i))
+      = invariant2 (strain (M3.inv F.transpose)) ∧
+    invariant3 (strain (strainG mag cosMax big c0 c1 pos0 pos1 nbrs0 nbrs1 i))
+      = invariant3 (strain (M3.inv F.transpose)) ∧
+    angularVelocitySq (rotation (strainG mag cosMax big c0 c1 pos0 pos1 nbrs0 nbrs1 i))
+      = angularVelocitySq (rotation (M3.inv F.transpose)) ∧
+    (strain (M3.inv F.transpose)).transpose = strain (M3.inv F.transpose) ∧
+    (rotation (M3.inv F.transpose)).transpose = subM zeroM (rotation (M3.inv F.transpose)) ∧
+    addM (strain (M3.inv F.transpose)) (rotation (M3.inv F.transpose)) = subM M3.one (M3.inv F.transpose) := by
+  have h := strainG_homogeneous mag cosMax big c0 c1 pos0 pos1 nbrs0 nbrs1 i ks F hF hlen hbest hnd hq hne hrank
+  rw [h]
+  exact ⟨rfl, rfl, rfl, rfl, rfl, rfl, strain_symm _, rotation_antisymm _, strain_add_rotation _⟩
 
 /-- no deformation (`F = I`, `G = I`): zero strain and rotation. -/
 theorem strain_one : strain (M3.one : M3 K) = zeroM ∧ rotation (M3.one : M3 K) = zeroM := by
